@@ -268,10 +268,78 @@ static void account(unsigned tid, unsigned seq, unsigned len)
     g_issued->fetch_add((2 + hl + static_cast<long long>(len)) * g_sinks_per_record, std::memory_order_relaxed);
 }
 
+// the severity function of a statement: all six are used (seq selects one), the record is the same
+#define WITH_LEVEL(L, seq, BODY)            \
+    switch ((seq) % 6)                      \
+    {                                       \
+    case 0:                                 \
+    {                                       \
+        auto s = L::info();                 \
+        BODY;                               \
+        break;                              \
+    }                                       \
+    case 1:                                 \
+    {                                       \
+        auto s = L::warn();                 \
+        BODY;                               \
+        break;                              \
+    }                                       \
+    case 2:                                 \
+    {                                       \
+        auto s = L::fatal();                \
+        BODY;                               \
+        break;                              \
+    }                                       \
+    case 3:                                 \
+    {                                       \
+        auto s = L::trace();                \
+        BODY;                               \
+        break;                              \
+    }                                       \
+    case 4:                                 \
+    {                                       \
+        auto s = L::error();                \
+        BODY;                               \
+        break;                              \
+    }                                       \
+    default:                                \
+    {                                       \
+        auto s = L::debug();                \
+        BODY;                               \
+        break;                              \
+    }                                       \
+    }
+
+// the one-expression form: the stream is a temporary
+#define EXPR_LEVEL(L, seq, ITEMS) \
+    switch ((seq) % 6)            \
+    {                             \
+    case 0:                       \
+        L::info() ITEMS;          \
+        break;                    \
+    case 1:                       \
+        L::warn() ITEMS;          \
+        break;                    \
+    case 2:                       \
+        L::fatal() ITEMS;         \
+        break;                    \
+    case 3:                       \
+        L::trace() ITEMS;         \
+        break;                    \
+    case 4:                       \
+        L::error() ITEMS;         \
+        break;                    \
+    default:                      \
+        L::debug() ITEMS;         \
+        break;                    \
+    }
+
 template <typename L>
 static void statement(unsigned tid, unsigned seq, unsigned len, bool named)
 {
     std::string p = payload(tid, seq, len);
+    // severities differ per thread at the same moment (tid shifts the rotation)
+    unsigned lv = seq + tid;
     if (seq % 7 == 3)
     {
         // an operand that itself logs: two statements of one thread are alive at the same time; the inner
@@ -291,20 +359,21 @@ static void statement(unsigned tid, unsigned seq, unsigned len, bool named)
         }
         else
         {
-            L::info() << tid << ':' << seq << ':' << inner << len << ':' << p;
+            L::fatal() << tid << ':' << seq << ':' << inner << len << ':' << p;
         }
         return;
     }
     if (named)
     {
-        auto s = L::warn();
-        s << tid << ':';
-        s << seq << ':' << len;
-        s << ':' << p;
+        WITH_LEVEL(L, lv, {
+            s << tid << ':';
+            s << seq << ':' << len;
+            s << ':' << p;
+        })
     }
     else
     {
-        L::info() << tid << ':' << seq << ':' << len << ':' << p;
+        EXPR_LEVEL(L, lv, << tid << ':' << seq << ':' << len << ':' << p)
     }
 }
 
